@@ -1,6 +1,7 @@
 package rules
 
 import (
+	"fmt"
 	"go/types"
 
 	"golang.org/x/tools/go/ssa"
@@ -44,10 +45,26 @@ func responseSites(l *core.Ledger, r *rt) []*respSite {
 	for _, f := range allFuncs(l.Prog, r.pkg) {
 		f := f
 		add := func(at ssa.Instruction, v, id ssa.Value) {
-			s := &respSite{fn: f, at: at, val: v, msgID: id, fields: map[string]ssa.Value{}}
 			base := fnKey(f)
 			count[base]++
-			s.key = base + "#resp" + string(rune('0'+count[base]))
+			key := base + "#resp" + string(rune('0'+count[base]))
+			// a response variable that is assigned on some paths (spill slot of a
+			// re-assigned parameter or local): one alternative per stored value
+			if alts := spillStores(v); len(alts) > 1 {
+				for i, st := range alts {
+					s := &respSite{fn: f, at: at, val: st.Val, msgID: id, fields: map[string]ssa.Value{}}
+					s.key = fmt.Sprintf("%s/alt%d", key, i)
+					if lit, ok := inPlaceLiteral(st); ok && len(lit) > 0 {
+						s.kind, s.fields = "literal", lit
+					} else {
+						classifyResponse(s)
+					}
+					out = append(out, s)
+				}
+				return
+			}
+			s := &respSite{fn: f, at: at, val: v, msgID: id, fields: map[string]ssa.Value{}}
+			s.key = key
 			classifyResponse(s)
 			out = append(out, s)
 		}
@@ -77,6 +94,34 @@ func responseSites(l *core.Ledger, r *rt) []*respSite {
 				}
 			}
 		})
+	}
+	return out
+}
+
+// spillStores: for v = *slot where slot is a local that is stored as a whole
+// more than once, those stores.
+func spillStores(v ssa.Value) []*ssa.Store {
+	ld, ok := v.(*ssa.UnOp)
+	if !ok {
+		return nil
+	}
+	al, ok := ld.X.(*ssa.Alloc)
+	if !ok {
+		return nil
+	}
+	var out []*ssa.Store
+	for _, ref := range *al.Referrers() {
+		if st, ok := ref.(*ssa.Store); ok && st.Addr == ssa.Value(al) {
+			out = append(out, st)
+		}
+	}
+	return out
+}
+
+func spillAlternatives(v ssa.Value) []ssa.Value {
+	var out []ssa.Value
+	for _, st := range spillStores(v) {
+		out = append(out, st.Val)
 	}
 	return out
 }
